@@ -78,7 +78,7 @@ def register(reg):
         ],
         properties=["C11"], modular=False, name="_analyze_form#metadata-loop",
         bounded="2 integrals in one integral-data group; no custom quadrature element",
-        mutants=[("qd = int(np.max(integral.metadata()['estimated_polynomial_degree']))", "qd = 1"),
+        mutants=[('qd = int(np.max(integral.metadata()["estimated_polynomial_degree"]))', 'qd = 1'),
                  ("if qd < 0:", "if qd <= 0:")]))
 
 
@@ -138,7 +138,7 @@ def register_representation(reg):
         properties=["C05", "C02"], modular=False, name="_compute_integral_ir#offsets",
         bounded="3 coefficients, 3 constants of rank 0,1,2 (loop bodies are uniform in the position)",
         mutants=[("_offset += width * element_dimensions[el]", "_offset += element_dimensions[el]"),
-                 ("width = 2 if integral_type in 'interior_facet' else 1", "width = 2 if integral_type in 'exterior_facet' else 1")]))
+                 ('width = 2 if integral_type in ("interior_facet") else 1', 'width = 2 if integral_type in ("exterior_facet") else 1')]))
     # tensor shape: doubled per argument iff interior facet; diagonal keeps the first only
     frag2 = fragment("ffcx/ir/representation.py::_compute_integral_ir", "if expression_ir['integral_type'] == 'interior_facet':",
                      last="if diagonalise:", params=["expression_ir", "argument_dimensions", "diagonalise"],
@@ -155,3 +155,51 @@ def register_representation(reg):
         ],
         properties=["C02", "C08", "C10"], modular=False, name="_compute_integral_ir#tensor_shape", bounded="rank <= 2",
         mutants=[("[2 * dim for dim in argument_dimensions]", "[dim for dim in argument_dimensions]")]))
+
+
+def register_form_ir(reg):
+    """_compute_form_ir: 'otherwise' -> -1, one (id, name, domains) triple per id of each integral group (C06)."""
+    TYPES = ("cell", "exterior_facet", "interior_facet", "vertex", "ridge")
+
+    def mk(interp, name):
+        groups = []
+        names, doms = {}, {}
+        n_groups = 1 + interp.ctx.decide(2, "number of integral groups")
+        for g in range(n_groups):
+            typ = TYPES[interp.ctx.decide(2, f"type of group {g}")]  # cell or exterior_facet
+            nid = 1 + interp.ctx.decide(2, f"ids in group {g}")
+            sid = []
+            for k in range(nid):
+                if interp.ctx.decide(2, f"group {g} id {k} is 'otherwise'") == 1:
+                    sid.append("otherwise")
+                else:
+                    sid.append(SV(z3.Int(f"id_{g}_{k}"), "int"))
+            groups.append(types.SimpleNamespace(integral_type=typ, subdomain_id=tuple(sid)))
+            names[(0, g)] = f"integral_name_{g}"
+            doms[f"integral_name_{g}"] = Key(f"domains_{g}")
+        ir = {"subdomain_ids": {t: [] for t in TYPES}, "integral_names": {t: [] for t in TYPES}, "integral_domains": {t: [] for t in TYPES}}
+        return types.SimpleNamespace(ir=ir, form_data=types.SimpleNamespace(integral_data=groups), integral_names=names,
+                                     integral_domains=doms, form_id=0, groups=groups)
+
+    frag = fragment("ffcx/ir/representation.py::_compute_form_ir", "for itg_index, itg_data in enumerate(form_data.integral_data):",
+                    params=["ir", "form_data", "integral_names", "integral_domains", "form_id"], returns="ir",
+                    name="_compute_form_ir#integral-lists")
+    reg.add(Contract(
+        "ffcx/ir/representation.py::_compute_form_ir", dict(case=Custom(mk)), fn=frag,
+        call=["case.ir", "case.form_data", "case.integral_names", "case.integral_domains", "case.form_id"],
+        ensures=[
+            "all([len(result['subdomain_ids'][t]) == len(result['integral_names'][t]) and len(result['subdomain_ids'][t])"
+            " == len(result['integral_domains'][t]) for t in result['subdomain_ids']])",
+            # per type: the concatenation over its groups (in order) of (id or -1 for 'otherwise', group name, group domains)
+            "all([result['subdomain_ids'][t] == [(-1 if s == 'otherwise' else s) for g in case.groups if g.integral_type == t for s in g.subdomain_id]"
+            " for t in result['subdomain_ids']])",
+            "all([result['integral_names'][t] == [case.integral_names[(0, k)] for k, g in enumerate(case.groups) if g.integral_type == t"
+            " for s in g.subdomain_id] for t in result['subdomain_ids']])",
+            "all([result['integral_domains'][t] == [case.integral_domains[case.integral_names[(0, k)]] for k, g in enumerate(case.groups)"
+            " if g.integral_type == t for s in g.subdomain_id] for t in result['subdomain_ids']])",
+            # negative ids other than the -1 of 'otherwise' are rejected
+            "all([all([s >= -1 for s in result['subdomain_ids'][t]]) for t in result['subdomain_ids']])",
+        ],
+        properties=["C06"], modular=False, name="_compute_form_ir#integral-lists", bounded="<= 2 integral groups with <= 2 ids each",
+        mutants=[('sid if sid != "otherwise" else -1', 'sid if sid != "otherwise" else 0'),
+                 ('ir["integral_names"][integral_type] += [iname]', 'ir["integral_names"][integral_type] = [iname]')]))
